@@ -2,6 +2,7 @@ package c08
 
 import (
 	"bytes"
+	"errors"
 	"fmt"
 	"math/rand"
 	"sort"
@@ -10,6 +11,7 @@ import (
 	"time"
 
 	"github.com/oneconcern/datamon/pkg/core"
+	"github.com/oneconcern/datamon/pkg/core/status"
 
 	"verifharness/coreh"
 	"verifharness/drv"
@@ -168,6 +170,54 @@ func run08(c drv.Case, res *drv.Result) {
 			if fmtMap(got) != fmtMap(model[rp]) {
 				res.Violate("listing-mismatch", ncls, "step %d (%s %q in %s): ListLabels(%s) = %s, expected %s", i, s.Op, s.Name, s.Repo, rp, fmtMap(got), fmtMap(model[rp]))
 				return false
+			}
+			// the same listing with one failing store call (every few steps): a listing that still reports success must
+			// be complete — a label may not silently drop out because reading it failed once; and a get that still
+			// succeeds must resolve correctly
+			if i%4 == 3 && len(model[rp]) > 0 {
+				fa := memstore.NewActor("faulted-lister")
+				k := 1 + r.Intn(3+2*len(model[rp]))
+				kind := ""
+				fa.SetFault(func(c memstore.Call) error {
+					if c.Index == k {
+						kind = c.Store + "." + c.Op
+						return memstore.ErrInjected
+					}
+					return nil
+				})
+				fls, ferr := core.ListLabels(rp, env.Stores(fa), core.BatchSize([]int{1, 2, 1024}[r.Intn(3)]))
+				res.Stat("listings_under_a_store_fault", 1)
+				if ferr == nil && kind != "" {
+					fgot := map[string]string{}
+					for _, l := range fls {
+						fgot[l.Name] = l.BundleID
+					}
+					if fmtMap(fgot) != fmtMap(model[rp]) {
+						res.Violate("listing-mismatch", "under-a-swallowed-fault|"+kind, "step %d: ListLabels(%s) reported success although its store call %d (%s) failed, and returned %s, expected %s", i, rp, k, kind, fmtMap(fgot), fmtMap(model[rp]))
+						return false
+					}
+				}
+				for nm, want := range model[rp] {
+					ga := memstore.NewActor("faulted-getter")
+					gk := 1 + r.Intn(3)
+					ga.SetFault(func(c memstore.Call) error {
+						if c.Index == gk {
+							return memstore.ErrInjected
+						}
+						return nil
+					})
+					id, gerr := env.GetLabel(ga, rp, nm)
+					res.Stat("gets_under_a_store_fault", 1)
+					if gerr == nil && id != want {
+						res.Violate("get-mismatch", "under-a-swallowed-fault", "step %d: label %q in %s resolves to %q under a store fault, last set to %q", i, nm, rp, id, want)
+						return false
+					}
+					if gerr != nil && errors.Is(gerr, status.ErrNotFound) && ga.FaultsInjected() > 0 {
+						res.Violate("label-reported-missing-on-a-store-fault", "get", "step %d: label %q in %s exists, but a get whose store call %d failed reports it as not found (%v): a transient fault must not look like a deleted label", i, nm, rp, gk, gerr)
+						return false
+					}
+					break
+				}
 			}
 			// get of every name ever used
 			for nm := range used[rp] {
